@@ -115,7 +115,8 @@ type of the fragment int / float / str / bool / Decimal / Path / UUID / date / t
 non-negative timedelta (canonical tokens, under the named `StdLaws`, incl. the `Z` spelling read back by `fromisoformat`) /
 Enum (pairwise different values) / Literal[...] / bytes / bytearray (base64 law) / Optional[·] / list[·] / deque[·] /
 set[·] / frozenset[·] (hashable, pairwise different elements) / tuple[·, ...] / fixed tuples (also nested in one another:
-the generated `v1[k]` indexing, `RTV1.v1Tuple_ok`) / NamedTuple classes / dict[str, ·] / defaultdict[str, ·] /
+the generated `v1[k]` indexing, `RTV1.v1Tuple_ok`) / NamedTuple classes / TypedDict classes (distinct keys, every Required key present, NotRequired keys present or
+absent, entries in declaration order) / dict[str, ·] / defaultdict[str, ·] /
 OrderedDict[str, ·] / Unions holding a tagged dataclass next to any other members that do not answer to its tag, and None /
 dataclass whose only customisation of its own is a tag (each field is dumped under `su.kf name`, that key is
 the first one its loader tries, and the keys — and the tag key — are pairwise distinct: `RTV1.ClsOK su`), nested
@@ -193,5 +194,22 @@ theorem C02_roundtrip_example_containers (su : RTV1.Setup) (std : Std) :
   · intro x hx
     simp only [List.mem_cons, List.not_mem_nil, or_false] at hx
     rcases hx with rfl | rfl <;> exact RTV1.Conf.str _
+
+/-- TypedDict values of the v1 fragment exist: for `class TD(TypedDict): a: int; b: NotRequired[str]` the value
+`{'a': 1}` conforms below every setup. -/
+theorem C02_roundtrip_example_typeddict (su : RTV1.Setup) (std : Std) :
+    RTV1.Conf su std (.typeddict "TD".toList [("a".toList, .int, true), ("b".toList, .str, false)])
+      (.map .dict [(.str "a".toList, .int 1)]) := by
+  refine RTV1.Conf.typeddict "TD".toList [("a".toList, .int, true), ("b".toList, .str, false)] [some (.int 1), none] (by decide) rfl ?_ ?_
+  · intro p hp hn
+    simp only [List.zip_cons_cons, List.zip_nil_right, List.mem_cons, List.not_mem_nil, or_false] at hp
+    rcases hp with rfl | rfl
+    · cases hn
+    · rfl
+  · intro p hp v hv
+    simp only [List.zip_cons_cons, List.zip_nil_right, List.mem_cons, List.not_mem_nil, or_false] at hp
+    rcases hp with rfl | rfl
+    · cases hv; exact RTV1.Conf.int 1
+    · cases hv
 
 end DW.Props.C02
